@@ -44,7 +44,15 @@ def run(p):
                         log.append(["direct", state["tick"], k, "stop"])
                 if t.get("sets"):
                     val = 0 if counters[k] % 3 == 2 else 100 * (k + 1) + counters[k]
-                    Globals.set("x", val)
+                    # both documented forms of Globals.set: one key, or a dict of several keys at once (on a key that
+                    # already holds a value, too: the latest value set is what a read must return)
+                    form = (counters[k] + k) % 3
+                    if form == 0:
+                        Globals.set("x", val)
+                    elif form == 1:
+                        Globals.set({"x": val})
+                    else:
+                        Globals.set({"unrelated-%d" % k: counters[k], "x": val})
                     log.append(["set", state["tick"], k, val])
                 counters[k] += 1
             return cb
